@@ -199,25 +199,26 @@ def check(chk, fx):
     # custom lexer object
     gcts = fx.need(PARSER + "::get_current_term")
     n_lexer = 0
-    for fn in gcts:
-        for n in walk(fn.body):
-            if A.is_call(n, name="match") and n.get("k") == "CXXMemberCallExpr":
-                obj = A.call_object(n)
-                d = A.declref(obj)
-                if d is None or d["k"] != "Var":
-                    chk.violation("IMM-7", A.site(fn, n), "IMM-7:get_current_term:lexer-not-local",
-                                  "custom lexer's match() is called on '%s', not on a local object" %
-                                  A.path_names(A.access_path(obj)))
-                    continue
-                v = [x for x in walk(fn.body) if x.get("k") == "Var" and x["id"] == d["id"]]
-                if not v or v[0].get("staticlocal") or v[0].get("ref"):
-                    chk.violation("IMM-7", A.site(fn, n), "IMM-7:get_current_term:lexer-not-automatic",
-                                  "custom lexer object '%s' is not an automatic local" % d["n"])
-                    continue
-                n_lexer += 1
-                if ("lex", n["l"]) not in seen:
-                    seen.add(("lex", n["l"]))
-                    chk.ok("IMM-7", A.site(fn, n), "custom lexer '%s' is an automatic local of get_current_term" % d["n"])
+    for fn0 in gcts:
+        for fn in A.with_helpers(fn0):
+            for n in walk(fn.body):
+                if A.is_call(n, name="match") and n.get("k") == "CXXMemberCallExpr":
+                    obj = A.call_object(n)
+                    d = A.declref(obj)
+                    if d is None or d["k"] != "Var":
+                        chk.violation("IMM-7", A.site(fn, n), "IMM-7:get_current_term:lexer-not-local",
+                                      "custom lexer's match() is called on '%s', not on a local object" %
+                                      A.path_names(A.access_path(obj)))
+                        continue
+                    v = [x for x in walk(fn.body) if x.get("k") == "Var" and x["id"] == d["id"]]
+                    if not v or v[0].get("staticlocal") or v[0].get("ref"):
+                        chk.violation("IMM-7", A.site(fn, n), "IMM-7:get_current_term:lexer-not-automatic",
+                                      "custom lexer object '%s' is not an automatic local" % d["n"])
+                        continue
+                    n_lexer += 1
+                    if ("lex", n["l"]) not in seen:
+                        seen.add(("lex", n["l"]))
+                        chk.ok("IMM-7", A.site(fn, n), "custom lexer '%s' is an automatic local of get_current_term" % d["n"])
     chk.require(n_lexer >= 1, "no custom-lexer instantiation of get_current_term in the witness matrix")
 
     # ---------------------------------------------------------------- IMM-8 writes through this in const members
